@@ -287,6 +287,17 @@ def free_running(ctx):
     ctx.info['free_running_latency_ms'] = max(ctx.info['free_running_latency_ms'], int((time.time() - t0) * 1000))
     if first['exception'] != 'TimeoutError' or final['exception'] is not None and final['exception'] != first['exception'] and False:
         ctx.fail({'symptom': 'free-running: no timeout reported'}, got=first['exception'])
+    import threading
+    import pedal.sandbox.timeout as tomod
+    still = [t.name for t in threading.enumerate() if isinstance(t, tomod.InterruptableThread) and t.is_alive()]
+    if still:
+        # the real interrupt (ctypes call into the interpreter) is outside the scheduler's model: this pass is the only
+        # place where it runs for real
+        time.sleep(0.5)
+        still = [t.name for t in threading.enumerate() if isinstance(t, tomod.InterruptableThread) and t.is_alive()]
+        if still:
+            ctx.fail({'symptom': 'free-running: the interrupted student thread is still alive 0.65 s after the time-out'},
+                     threads=still)
     if final['runtime_feedback'] != ['timeout_error'] or own != 'second\n' or leaked or final['stacks'] != (0, 0):
         ctx.fail({'symptom': 'free-running: timeout not clean'}, feedback=final['runtime_feedback'], own=own, leaked=leaked,
                  stacks=final['stacks'])
